@@ -57,6 +57,9 @@ def systematic():
                 [L("alice", "p1"), H] + down + [L("alice", "p1"), H, L("alice", "p1")]})
     out.append({"origin": "confirmed-login-renews-the-96h", "steps": [L("alice", "p1"), H, L("alice", "p1"), H] + down + [L("alice", "p1"), H, L("alice", "p1")] + up +
                 [L("alice", "p1")]})
+    RS = {"op": "restart"}
+    out.append({"origin": "rejection-evicts-after-a-restart", "steps": [L("alice", "p1"), RS, {"op": "change", "user": "alice", "pw": "p2"}, L("alice", "p1")] + down +
+                [L("alice", "p1"), L("alice", "p2")] + up + [L("alice", "p2"), RS] + down + [L("alice", "p2"), L("alice", "p1")]})
     SY, DO, DR = {"op": "sync"}, {"op": "dboutage"}, {"op": "dbrecover"}
     out.append({"origin": "replica-serves-during-store-outage", "steps": [L("alice", "p1"), SY] + down + [DO, L("alice", "p1"), L("alice", "p2"), DR] + up + [L("alice", "p1")]})
     out.append({"origin": "evicted-hash-leaves-replica", "steps": [L("alice", "p1"), SY, {"op": "change", "user": "alice", "pw": "p2"}, L("alice", "p1"), SY] + down +
@@ -101,6 +104,20 @@ def run(tier, seed, work, replay):
             extra.append(c2)
     cases = cases + extra
     cov["behaviours_with_typed_spelling_or_basic_auth"] = len(extra)
+    # ... and with a restart of the daemon after every login (what is in memory is gone, what was stored stays)
+    extra = []
+    for c in cases:
+        if c["origin"].startswith("simulate") and tier == "quick" and len(extra) >= 30:
+            break
+        if any(st.get("op") == "login" for st in c["steps"]) and "+" not in c["origin"]:
+            st2 = []
+            for st in c["steps"]:
+                st2.append(st)
+                if st.get("op") == "login":
+                    st2.append({"op": "restart"})
+            extra.append({"origin": c["origin"] + "+restarts", "steps": st2})
+    cases = cases + extra
+    cov["behaviours_with_restarts"] = len(extra)
     cp = work.path("cases.ndjson")
     E.write_ndjson(cp, cases)
     known = E.load_known()
